@@ -25,7 +25,7 @@ Short == {c \in Family : NV(c) = 1 /\ Size(c) = NState - 2 /\ \A k \in BrId : c.
 Start == IF Deficient THEN Cores \cup Short ELSE Cores
 
 Derive(x) == Bind(Table(x), LAMBDA tab : Bind(Meas(x), LAMBDA m :
-  [tab |-> tab, rows |-> Rows(tab), observable |-> Observable(m), nocritical |-> NoCritical(m), countok |-> CountOK(tab), df |-> Chi2Df(tab),
+  [rows |-> Rows(tab), observable |-> Observable(m), nocritical |-> NoCritical(m), countok |-> CountOK(tab), df |-> Chi2Df(tab),
    zidx |-> ZIdx(tab), zw4 |-> ZW4(tab)]))
 Changed(x) == (IF x.red = "none" THEN 0 ELSE 1) + (IF x.dup = "none" THEN 0 ELSE 1) + (IF x.ord = "created" THEN 0 ELSE 1)
 
@@ -40,10 +40,12 @@ Duplicate(d) == /\ s.dup = "none" /\ out.observable
 \* the user writes the same rows in another order
 Reorder(o) == /\ s.ord = "created" /\ out.observable
               /\ s' = [s EXCEPT !.ord = o]
-Next == /\ Changed(s) < Depth
-        /\ \/ \E r \in Reds \ {"none"} : AddRedundant(r)
-           \/ \E d \in Dups \ {"none"} : Duplicate(d)
-           \/ \E o \in Ords \ {"created"} : Reorder(o)
+Next == /\ \/ /\ Changed(s) < Depth
+              /\ \/ \E r \in Reds \ {"none"} : AddRedundant(r)
+                 \/ \E d \in Dups \ {"none"} : Duplicate(d)
+                 \/ \E o \in Ords \ {"created"} : Reorder(o)
+           \/ /\ s.dup # "none" /\ Changed(s) = Depth        \* the row order matters most when cells hold several rows:
+              /\ \E o \in Ords \ {"created"} : Reorder(o)   \* reordering a table with duplicates is always explored
         /\ out' = Derive(s')
 
 \* ---- model-level theorems, checked by TLC on every state -----------------------------------------------------------
@@ -56,14 +58,18 @@ M_ObservableImpliesCount == out.observable => out.countok
 M_RedundancyMonotone == Observable(CoreSlots(s.core)) => out.observable
 M_NoCriticalImpliesObservable == (Meas(s) # {} /\ out.nocritical) => out.observable
 \* z (cells, their order, their merged weights up to the duplicates) does not depend on the row order ...
-M_LayoutOrderFree == LET t0 == Table([s EXCEPT !.ord = "created"]) IN ZLayout(out.tab) = ZLayout(t0) /\ out.zw4 = ZW4(t0)
+M_LayoutOrderFree == Bind(Table(s), LAMBDA tab : Bind(Table([s EXCEPT !.ord = "created"]), LAMBDA t0 :
+                        ZKeys(tab) = ZKeys(t0) /\ out.zw4 = ZW4(t0)))
 \* ... and duplicates add no cell: the cells are exactly the distinct slots of the set
-M_LayoutDupFree == ZLayout(out.tab) = ZLayout(Table([s EXCEPT !.dup = "none"])) /\ Len(out.zidx) = Cardinality(Meas(s))
+M_LayoutDupFree == Bind(Table(s), LAMBDA tab : Bind(Table([s EXCEPT !.dup = "none"]), LAMBDA t0 : ZKeys(tab) = ZKeys(t0)))
+                   /\ Len(out.zidx) = Cardinality(Meas(s))
 \* the remembered index of a cell is a row of that cell, distinct cells remember distinct rows
-M_FirstRowSound == \A k \in DOMAIN out.zidx : /\ out.zidx[k] + 1 \in DOMAIN out.tab
-                                               /\ Cell(out.tab[out.zidx[k] + 1].slot) = ZLayout(out.tab)[k]
-                                               /\ \A j \in DOMAIN out.zidx : out.zidx[j] = out.zidx[k] => j = k
-M_TableIsSet == TableSlots(out.tab) = Meas(s) /\ Len(out.tab) = Cardinality(Meas(s)) + Cardinality(DupSlots(Meas(s), s.dup))
+M_FirstRowSound == Bind(Table(s), LAMBDA tab : Bind(ZKeys(tab), LAMBDA ks : \A k \in DOMAIN out.zidx :
+                         /\ out.zidx[k] + 1 \in DOMAIN tab
+                         /\ KeyOf[tab[out.zidx[k] + 1].slot] = ks[k]
+                         /\ \A j \in DOMAIN out.zidx : out.zidx[j] = out.zidx[k] => j = k))
+M_TableIsSet == Bind(Table(s), LAMBDA tab : TableSlots(tab) = Meas(s) /\ Len(tab) = Len(out.rows)
+                                            /\ Len(tab) = Cardinality(Meas(s)) + Cardinality(DupSlots(Meas(s), s.dup)))
 \* the required outcome is invariant along every action (the property's invariance, at model level)
 M_ActionsKeepRequirement == [][out'.observable = out.observable /\ s'.core = s.core]_<<s, out>>
 =============================================================================
